@@ -294,17 +294,6 @@ func nasRunCase(r *report.Report, l *report.Local, prop string, c nasCase) {
 	}
 	nontrivial := len(c.a.opts) > 0 || c.desc != "no optional IE"
 	l.Case(cs+fmt.Sprint(c.perm), nontrivial, fmt.Sprintf("%d", len(refB)))
-	decode := func(b []byte) (nasAbstract, error) {
-		m := nas.NewMessage()
-		var derr error
-		if perr := recoverErr(func() { bb := append([]byte{}, b...); derr = m.PlainNasDecode(&bb) }); perr != nil {
-			return nasAbstract{}, perr
-		}
-		if derr != nil {
-			return nasAbstract{}, derr
-		}
-		return nasExtract(t, m)
-	}
 	key := func(kind string) string {
 		ie := "mandatory"
 		if len(c.a.opts) == 1 {
@@ -313,6 +302,28 @@ func nasRunCase(r *report.Report, l *report.Local, prop string, c nasCase) {
 			ie = "several"
 		}
 		return fmt.Sprintf("%s/%s/%s", kind, t.Name, ie)
+	}
+	decode := func(b []byte) (nasAbstract, error) {
+		m := nas.NewMessage()
+		var derr error
+		bb := append([]byte{}, b...)
+		if perr := recoverErr(func() { derr = m.PlainNasDecode(&bb) }); perr != nil {
+			return nasAbstract{}, perr
+		}
+		if derr != nil {
+			return nasAbstract{}, derr
+		}
+		a1, xerr := nasExtract(t, m)
+		if xerr == nil {
+			// the caller re-uses its receive buffer: the decoded message must not change with it
+			for i := range bb {
+				bb[i] ^= 0xa5
+			}
+			if a2, err2 := nasExtract(t, m); err2 != nil || nasEqual(a2, a1) != "" {
+				r.Violate(key("decoded-message-aliases-the-input-buffer"), cs, "after the input buffer was overwritten the decoded message reads differently: "+nasEqual(a2, a1), nil)
+			}
+		}
+		return a1, xerr
 	}
 	if c.perm != nil {
 		// any wire order decodes to the same message (both properties use it: C08 demands it, C09 gets the layout from it)
